@@ -861,6 +861,13 @@ func c16LockstepOne(r *Run, idx int, rng *rand.Rand, names pxNames, ic pxIcept, 
 		return true
 	}
 	for k := 0; k < length; k++ {
+		if k >= 2 && rng.Intn(8) == 0 {
+			// a peer attaches again under its name while its previous connection is still open: from now on
+			// everything for the name goes to the new connection, in order, nothing to the old one
+			w.attach(pick(rng, names.attached), true)
+			r.Count("lockstep.reattach")
+			continue
+		}
 		id++
 		sender := pick(rng, connected())
 		if !step(sender, pxGenEnv(rng, id, sender, names)) {
